@@ -369,6 +369,22 @@ pub fn rand_cfg(rng: &mut Rng, world: &World, n_accts: usize, ixlen: usize) -> V
 /// config behind `nm` instruction accounts (`data_lens` = data lengths of those `nm` accounts).  Used for
 /// the multi-config scenarios, where independently random configs would make almost every list fail at
 /// its first or second entry and the later entries (and the index arithmetic between them) go unobserved.
+/// a start index into `len >= 1` bytes of data that a one-byte field can hold: any, with a bias to the last
+/// positions and to the top of the byte's range (224..=255), where index + length passes 255
+fn hi_index(rng: &mut Rng, len: usize) -> usize {
+    let top = len.min(256) - 1;
+    match rng.below(4) { 0 => top - rng.below((top as u64).min(33) + 1) as usize, 1 if top >= 224 => rng.range(224, top as u64) as usize, _ => rng.below(top as u64 + 1) as usize }
+}
+/// a length 1..=32 that fits in the `room >= 1` bytes after the start, biased to the largest that fits
+fn hi_len(rng: &mut Rng, room: usize) -> usize {
+    let m = room.min(32);
+    if rng.chance(1, 3) { m } else { rng.range(1, m as u64) as usize }
+}
+/// the start of a 32-byte key inside `len >= 32` bytes of data
+fn hi_key_index(rng: &mut Rng, len: usize) -> usize {
+    let top = (len - 32).min(255);
+    match rng.below(3) { 0 => top, 1 => top - rng.below((top as u64).min(8) + 1) as usize, _ => rng.below(top as u64 + 1) as usize }
+}
 pub fn valid_cfg(rng: &mut Rng, world: &World, nm: usize, j: usize, ixlen: usize, data_lens: &[usize]) -> Vec<u8> {
     let (s, w) = (rng.below(2) as u8, rng.below(2) as u8);
     let n_prev = nm + j;
@@ -383,9 +399,13 @@ pub fn valid_cfg(rng: &mut Rng, world: &World, nm: usize, j: usize, ixlen: usize
             for _ in 0..n {
                 let seed = match rng.below(4) {
                     0 => { let k = rng.below(6) as usize; Seed::Literal { bytes: rng.bytes(k) } }
-                    1 if ixlen >= 1 => { let i = rng.below(ixlen.min(200) as u64) as usize; let l = rng.range(1, ((ixlen - i).min(32)) as u64) as usize; Seed::InstructionData { index: i as u8, length: l as u8 } }
+                    // zero-length arguments are legal seeds: an empty slice anywhere up to and including the end of the data,
+                    // also of an account whose data is empty
+                    1 if rng.chance(1, 6) => { let i = rng.below(ixlen.min(255) as u64 + 1) as usize; Seed::InstructionData { index: i as u8, length: 0 } }
+                    3 if nm >= 1 && rng.chance(1, 4) => { let a = rng.below(nm.min(256) as u64) as usize; let d = rng.below(data_lens[a].min(255) as u64 + 1) as usize; Seed::AccountData { account_index: a as u8, data_index: d as u8, length: 0 } }
+                    1 if ixlen >= 1 => { let i = hi_index(rng, ixlen); let l = hi_len(rng, ixlen - i); Seed::InstructionData { index: i as u8, length: l as u8 } }
                     2 if n_prev >= 1 => Seed::AccountKey { index: rng.below(n_prev as u64) as u8 },
-                    3 if !with_data.is_empty() => { let a = *rng.pick(&with_data); let len = data_lens[a].min(200); let d = rng.below(len as u64) as usize; let l = rng.range(1, ((len - d).min(32)) as u64) as usize; Seed::AccountData { account_index: a as u8, data_index: d as u8, length: l as u8 } }
+                    3 if !with_data.is_empty() => { let a = *rng.pick(&with_data); let len = data_lens[a]; let d = hi_index(rng, len); let l = hi_len(rng, len - d); Seed::AccountData { account_index: a as u8, data_index: d as u8, length: l as u8 } }
                     _ => Seed::Literal { bytes: vec![7] },
                 };
                 let sz = match &seed { Seed::Literal { bytes } => 2 + bytes.len(), Seed::InstructionData { .. } => 3, Seed::AccountKey { .. } => 2, _ => 4 };
@@ -395,8 +415,8 @@ pub fn valid_cfg(rng: &mut Rng, world: &World, nm: usize, j: usize, ixlen: usize
             cfg_bytes(disc, &Seed::pack_into_address_config(&seeds).expect("valid seeds pack"), s, w)
         }
         _ => {
-            let kd = if ixlen >= 32 && (with_key_data.is_empty() || rng.chance(1, 2)) { PubkeyData::InstructionData { index: rng.below((ixlen - 31).min(200) as u64) as u8 } }
-                else if !with_key_data.is_empty() { let a = *rng.pick(&with_key_data); PubkeyData::AccountData { account_index: a as u8, data_index: rng.below((data_lens[a] - 31).min(200) as u64) as u8 } }
+            let kd = if ixlen >= 32 && (with_key_data.is_empty() || rng.chance(1, 2)) { PubkeyData::InstructionData { index: hi_key_index(rng, ixlen) as u8 } }
+                else if !with_key_data.is_empty() { let a = *rng.pick(&with_key_data); PubkeyData::AccountData { account_index: a as u8, data_index: hi_key_index(rng, data_lens[a]) as u8 } }
                 else { return cfg_bytes(0, &world.key(rng), s, w) };
             cfg_bytes(2, &PubkeyData::pack_into_address_config(&kd).unwrap(), s, w)
         }
